@@ -112,3 +112,73 @@ Theorem num_mul_Z : forall mf a b r, wf_num a -> wf_num b -> num_mul mf a b = So
   nval r = nval a * nval b /\ canon r /\ wf_num r.
 Proof. exact num_mul_spec. Qed.
 Print Assumptions num_mul_Z.
+
+(** generic quotient / remainder (sexp_quotient / sexp_remainder with the F-C04-3 repair) and the
+    VM opcodes, incl. MIN_FIXNUM / -1 and MIN_FIXNUM / 2^62 *)
+From ChibiV Require Import C04.Model3 C04.ProofsQuot C04.ProofsRadix C04.Spec.
+
+Theorem num_quotient_Z : forall fuel mf a b r, wf_num a -> wf_num b ->
+  num_quotient fuel mf a b = NV r ->
+  nval b <> 0 /\ nval r = Z.quot (nval a) (nval b) /\ wf_num r.
+Proof. exact num_quotient_spec. Qed.
+Print Assumptions num_quotient_Z.
+
+Theorem num_remainder_Z : forall fuel mf a b r, wf_num a -> wf_num b ->
+  num_remainder fuel mf a b = NV r ->
+  nval b <> 0 /\ nval r = Z.rem (nval a) (nval b) /\ wf_num r.
+Proof. exact num_remainder_spec. Qed.
+Print Assumptions num_remainder_Z.
+
+Theorem fx_quotient_handover : forall fuel mf a b r, wf_num a -> wf_num b ->
+  vm_quotient fuel mf a b = NV r ->
+  nval b <> 0 /\ nval r = Z.quot (nval a) (nval b) /\ wf_num r.
+Proof. exact vm_quotient_spec. Qed.
+Print Assumptions fx_quotient_handover.
+
+Theorem fx_remainder_Z : forall fuel mf a b r, wf_num a -> wf_num b ->
+  vm_remainder fuel mf a b = NV r ->
+  nval b <> 0 /\ nval r = Z.rem (nval a) (nval b) /\ wf_num r.
+Proof. exact vm_remainder_spec. Qed.
+Print Assumptions fx_remainder_Z.
+
+(** expt by squaring (sexp_bignum_expt), non-negative exponent *)
+Theorem expt_Z : forall fuel mf a e r, wf_big a -> 0 <= e ->
+  bignum_expt fuel mf a e = Some r -> nval r = bval a ^ e /\ canon r /\ wf_num r.
+Proof. exact bignum_expt_spec. Qed.
+Print Assumptions expt_Z.
+
+(** printing / parsing of bignums in radix 2..36 (any word-sized radix) *)
+Theorem write_bignum_digits_val : forall fuel a base ds, words a -> a <> [] -> 2 <= base < B ->
+  write_bignum_digits fuel a base = Some ds ->
+  of_radix base ds = val a /\ Forall (isdigit base) ds /\ ds <> [].
+Proof. exact write_bignum_digits_spec. Qed.
+Print Assumptions write_bignum_digits_val.
+
+Theorem number_to_string_radix_roundtrip : forall fuel a base ds, words a -> a <> [] -> 2 <= base < B ->
+  write_bignum_digits fuel a base = Some ds ->
+  val (read_bignum_digits 0 base ds) = val a.
+Proof. exact bignum_radix_roundtrip. Qed.
+Print Assumptions number_to_string_radix_roundtrip.
+
+Theorem read_number_handover : forall base, 2 <= base <= 36 -> forall ds v,
+  0 <= v <= FIXMAX -> Forall (isdigit base) ds ->
+  nval (read_number_digits base ds v) = horner base ds v /\ canon (read_number_digits base ds v).
+Proof. exact read_number_digits_spec. Qed.
+Print Assumptions read_number_handover.
+
+(** comparison (sexp_compare with the F-C04-4 repair) and exact integer square root (Newton loop of
+    sexp_bignum_sqrt): the result is the integer square root for ANY starting estimate *)
+From ChibiV Require Import C04.Model4 C04.ProofsSqrt.
+
+Theorem num_compare_Z : forall a b, wf_num a -> wf_num b -> cmp_ok a b ->
+  Z.sgn (num_compare a b) = Z.sgn (nval a - nval b).
+Proof. exact num_compare_spec. Qed.
+Print Assumptions num_compare_Z.
+
+Theorem sqrt_newton_sound : forall fuel qf mf a res s r,
+  wf_num a -> is_fix a = false -> wf_num res -> seed_ok res ->
+  sqrt_loop fuel qf mf a res = SV s r ->
+  nval s * nval s <= nval a < (nval s + 1) * (nval s + 1) /\ nval r = nval a - nval s * nval s
+  /\ canon s /\ canon r.
+Proof. exact sqrt_loop_spec. Qed.
+Print Assumptions sqrt_newton_sound.
